@@ -106,12 +106,7 @@ type ConcCase struct {
 
 func GenConc(t *rapid.T) ConcCase {
 	c := ConcCase{Rendezvous: rapid.Bool().Draw(t, "rendezvous"), Each: rapid.IntRange(1, 12).Draw(t, "each"), Delay: rapid.IntRange(0, 5).Draw(t, "delay")}
-	if c.Rendezvous {
-		// ≥5 concurrent callers over a zero-buffer connection is the known finding D14; stay below it here
-		c.Callers = rapid.IntRange(2, 4).Draw(t, "callers")
-	} else {
-		c.Callers = rapid.IntRange(2, 32).Draw(t, "callers")
-	}
+	c.Callers = rapid.IntRange(2, 32).Draw(t, "callers")
 	return c
 }
 
@@ -268,9 +263,7 @@ func RunConc(c ConcCase) harn.Result {
 	if c.Probe {
 		res.Classes = append(res.Classes, "d14_probe")
 		if stalled {
-			// the wedge dissolves only through the 30 s I/O deadline; do not wait for it
-			res.Known = append(res.Known, "D14-rendezvous-wedge")
-			return res
+			return harn.Fail("%d concurrent callers x %d calls over a zero-buffer connection: calls stalled for more than %v (client dispatch loop and server loops block one another)", c.Callers, c.Each, stallBound)
 		}
 		mu.Lock()
 		defer mu.Unlock()
